@@ -263,12 +263,20 @@ func predSearch(c searchCase, o *evid.Obs) error {
 	}
 
 	// The per-portion processor (complex_request_processor.go) moves From to the earliest
-	// start among the current winners whenever an iteration fills the page; later candidates
-	// then lose their earlier spans. Only pages that can never fill are compared.
-	if complexPath && nyes+ndc >= c.Limit && !o.Witness && !noExclude(kfPortion) {
-		o.Known(kfPortion)
-		o.Tag("skipped:portion-window")
-		return nil
+	// start among the current winners whenever an iteration fills the page. The known finding
+	// C11-portion-narrows-window is the case where that move changes what is read: some span
+	// lies between the requested From and the start of a trace that can win (a span of a
+	// newer candidate cut off, or a span before the window admitted). Only there the
+	// comparison is skipped; everywhere else the portioned search has to return exactly what
+	// the simple one returns.
+	if complexPath {
+		portionTags(&c, refs[0], o)
+		if nyes+ndc >= c.Limit && portionMoveMatters(&c, refs) && !o.Witness && !noExclude(kfPortion) {
+			o.Known(kfPortion)
+			o.Tag("skipped:portion-window")
+			return nil
+		}
+		o.Tag("portioned-compared")
 	}
 
 	// ---- comparison -----------------------------------------------------------------------
@@ -284,6 +292,108 @@ func predSearch(c searchCase, o *evid.Obs) error {
 		}
 	}
 	return fmt.Errorf("%s\nreturned: %s\nreference: %s\n%s", firstDiff, fmtGot(out.got), fmtRef(refs[0]), describe(&c, text, out.stmts))
+}
+
+// portionMoveMatters: From only ever moves to the start (earliest span, inside or outside
+// the window — traces_info reads all of tempo_traces) of a trace the query can select. The
+// move changes what is read when such a start lies before the requested From and a span
+// lies in between (admitted although outside the window), or when it lies inside the
+// window and some trace has in-window spans on both sides of it (its earlier spans are cut).
+func portionMoveMatters(c *searchCase, refs [][]refeval.TQTraceResult) bool {
+	from := c.From * 1e9
+	for ti := range c.DB.Traces {
+		selectable := false
+		for _, ref := range refs {
+			if ref[ti].State != refeval.TQNo {
+				selectable = true
+			}
+		}
+		if !selectable {
+			continue
+		}
+		start := c.DB.Traces[ti].Spans[0].TS
+		for _, sp := range c.DB.Traces[ti].Spans {
+			if sp.TS < start {
+				start = sp.TS
+			}
+		}
+		to := c.To * 1e9
+		for _, tr := range c.DB.Traces {
+			before, after := false, false
+			for _, sp := range tr.Spans {
+				if start < from && sp.TS >= start && sp.TS < from {
+					return true // a span before the requested window would be admitted
+				}
+				if sp.TS >= from && sp.TS < start {
+					before = true
+				}
+				if sp.TS >= start && sp.TS < to {
+					after = true
+				}
+			}
+			if before && after {
+				return true // this trace would lose its spans before the new From
+			}
+			// a trace lying entirely before `start` is older than every current winner
+			// (their latest match is >= their start >= the new From): dropping it is harmless
+		}
+	}
+	return false
+}
+
+// portionOf asks the reference interpreter for the partition of every trace
+// (cityHash64(trace_id) % n, the expression attr_condition.go renders).
+func portionOf(db *refeval.TQDB, n int64) map[string]int64 {
+	res, err := BuildCHDB(db).Query(fmt.Sprintf("SELECT lower(hex(trace_id)) as id, cityHash64(trace_id) %% %d as p FROM tempo_traces GROUP BY trace_id", n))
+	out := map[string]int64{}
+	if err != nil {
+		return out
+	}
+	for _, r := range res.Rows {
+		id, _ := r[0].(string)
+		p, _ := toInt64(r[1])
+		out[id] = p
+	}
+	return out
+}
+
+// portionTags classifies a per-portion case: how many portions hold matching traces, and
+// whether a trace of the final page lives in a portion after the one that first fills the
+// page (the winners of earlier portions have to be displaced).
+func portionTags(c *searchCase, ref []refeval.TQTraceResult, o *evid.Obs) {
+	n := (c.Complexity + complexityThreshold - 1) / complexityThreshold
+	o.Tag(fmt.Sprintf("portions=%d", n))
+	part := portionOf(&c.DB, n)
+	if len(part) == 0 {
+		return
+	}
+	var yes []refeval.TQTraceResult
+	perPortion := map[int64]int{}
+	for _, t := range ref {
+		if t.State == refeval.TQYes {
+			yes = append(yes, t)
+			perPortion[part[t.ID]]++
+		}
+	}
+	o.Tag(fmt.Sprintf("portions-with-matches=%d", len(perPortion)))
+	if len(yes) <= c.Limit {
+		return
+	}
+	cum, fills := 0, int64(-1)
+	for p := int64(0); p < n; p++ {
+		cum += perPortion[p]
+		if cum >= c.Limit {
+			fills = p
+			break
+		}
+	}
+	sort.Slice(yes, func(i, j int) bool { return yes[i].Recent > yes[j].Recent })
+	for _, t := range yes[:c.Limit] {
+		if fills >= 0 && part[t.ID] > fills {
+			o.Tag("later-portion-newer")
+			return
+		}
+	}
 }
 
 // noExclude switches the known-finding exclusions off (development aid).
